@@ -620,427 +620,6 @@ def _sniff_kind(atom):
 
 
 # ---------------------------------------------------------------------------------------------- concrete evaluation
-class _Unsupported(Exception):
-    pass
-
-
-class _PyRaise(Exception):
-    def __init__(self, exc):
-        Exception.__init__(self, repr(exc))
-        self.exc = exc
-
-
-_PURE_BUILTINS = dict((n, getattr(builtins, n)) for n in (
-    'len', 'bool', 'any', 'all', 'tuple', 'list', 'set', 'frozenset', 'dict', 'bytes', 'bytearray', 'ord', 'chr', 'min', 'max',
-    'zip', 'enumerate', 'sorted', 'range', 'str', 'int', 'isinstance', 'reversed', 'sum', 'abs', 'repr', 'iter', 'next', 'map',
-    'filter', 'memoryview', 'type', 'object', 'float', 'slice',
-    'Exception', 'TypeError', 'ValueError', 'IndexError', 'KeyError', 'AttributeError', 'LookupError', 'UnicodeError',
-    'UnicodeDecodeError', 'UnicodeEncodeError', 'StopIteration', 'ArithmeticError', 'ZeroDivisionError', 'BaseException'))
-_PURE_TYPES = (bytes, str, tuple, list, dict, set, frozenset, int, bool, bytearray, type(None), float)
-_CMP = {ast.Eq: lambda a, b: a == b, ast.NotEq: lambda a, b: a != b, ast.Lt: lambda a, b: a < b, ast.LtE: lambda a, b: a <= b,
-        ast.Gt: lambda a, b: a > b, ast.GtE: lambda a, b: a >= b, ast.Is: lambda a, b: a is b, ast.IsNot: lambda a, b: a is not b,
-        ast.In: lambda a, b: a in b, ast.NotIn: lambda a, b: a not in b}
-_BIN = {ast.Add: lambda a, b: a + b, ast.Sub: lambda a, b: a - b, ast.Mult: lambda a, b: a * b, ast.Mod: lambda a, b: a % b,
-        ast.FloorDiv: lambda a, b: a // b, ast.BitAnd: lambda a, b: a & b, ast.BitOr: lambda a, b: a | b,
-        ast.BitXor: lambda a, b: a ^ b, ast.LShift: lambda a, b: a << b, ast.RShift: lambda a, b: a >> b}
-
-
-class _Interp(object):
-    """Evaluates a *pure* function of the analysed tree on concrete arguments by walking its AST: constants, locals,
-    module / class level constants, operators, subscripts, methods of builtin value types, comprehensions, if / for /
-    while / try.  Nothing of the analysed tree is imported or executed by Python itself; an operation outside this
-    subset raises _Unsupported, an exception the analysed code would raise surfaces as _PyRaise."""
-
-    def __init__(self, repo, budget=20000):
-        self.repo, self.budget = repo, budget
-
-    # -- statements ------------------------------------------------------------------------------------------
-    def block(self, stmts, env, fi, depth):
-        for s in stmts:
-            sig = self.stmt(s, env, fi, depth)
-            if sig is not None:
-                return sig
-        return None
-
-    def assign(self, target, value, env, fi, depth):
-        if isinstance(target, ast.Name):
-            env[target.id] = value
-        elif isinstance(target, (ast.Tuple, ast.List)):
-            if any(isinstance(e, ast.Starred) for e in target.elts):
-                raise _Unsupported('starred target')
-            try:
-                vals = list(value)
-            except TypeError as e:
-                raise _PyRaise(e)
-            if len(vals) != len(target.elts):
-                raise _PyRaise(ValueError('unpack'))
-            for t, v in zip(target.elts, vals):
-                self.assign(t, v, env, fi, depth)
-        elif isinstance(target, ast.Subscript):
-            obj = self.ev(target.value, env, fi, depth)
-            if not isinstance(obj, (list, dict)):
-                raise _Unsupported('subscript store')
-            obj[self.ev(target.slice, env, fi, depth)] = value
-        else:
-            raise _Unsupported('assignment target')
-
-    def stmt(self, s, env, fi, depth):
-        self.budget -= 1
-        if self.budget < 0:
-            raise _Unsupported('evaluation budget exhausted')
-        ev = lambda e: self.ev(e, env, fi, depth)
-        if isinstance(s, ast.Expr):
-            if not isinstance(s.value, ast.Constant):
-                ev(s.value)
-            return None
-        if isinstance(s, ast.Pass):
-            return None
-        if isinstance(s, ast.Return):
-            return ('return', ev(s.value) if s.value is not None else None)
-        if isinstance(s, ast.Assign):
-            v = ev(s.value)
-            for t in s.targets:
-                self.assign(t, v, env, fi, depth)
-            return None
-        if isinstance(s, ast.AnnAssign):
-            if s.value is not None:
-                self.assign(s.target, ev(s.value), env, fi, depth)
-            return None
-        if isinstance(s, ast.AugAssign):
-            if not isinstance(s.target, ast.Name) or type(s.op) not in _BIN:
-                raise _Unsupported('augmented assignment')
-            env[s.target.id] = self.op(_BIN[type(s.op)], ev(s.target.__class__(id=s.target.id, ctx=ast.Load())), ev(s.value))
-            return None
-        if isinstance(s, ast.If):
-            return self.block(s.body if ev(s.test) else s.orelse, env, fi, depth)
-        if isinstance(s, ast.For):
-            it = ev(s.iter)
-            try:
-                it = iter(it)
-            except TypeError as e:
-                raise _PyRaise(e)
-            broke = False
-            for v in it:
-                self.assign(s.target, v, env, fi, depth)
-                sig = self.block(s.body, env, fi, depth)
-                if sig is not None:
-                    if sig[0] == 'break':
-                        broke = True
-                        break
-                    if sig[0] == 'continue':
-                        continue
-                    return sig
-            if not broke:
-                return self.block(s.orelse, env, fi, depth)
-            return None
-        if isinstance(s, ast.While):
-            n = 0
-            broke = False
-            while ev(s.test):
-                n += 1
-                if n > 2000:
-                    raise _Unsupported('loop bound')
-                sig = self.block(s.body, env, fi, depth)
-                if sig is not None:
-                    if sig[0] == 'break':
-                        broke = True
-                        break
-                    if sig[0] == 'continue':
-                        continue
-                    return sig
-            if not broke:
-                return self.block(s.orelse, env, fi, depth)
-            return None
-        if isinstance(s, ast.Break):
-            return ('break',)
-        if isinstance(s, ast.Continue):
-            return ('continue',)
-        if isinstance(s, ast.Raise):
-            if s.exc is None:
-                raise _Unsupported('bare raise')
-            e = ev(s.exc)
-            if isinstance(e, type) and issubclass(e, BaseException):
-                e = e()
-            if not isinstance(e, BaseException):
-                raise _Unsupported('raise of a non-exception')
-            raise _PyRaise(e)
-        if isinstance(s, ast.Try):
-            if s.finalbody:
-                raise _Unsupported('finally')
-            try:
-                sig = self.block(s.body, env, fi, depth)
-            except _PyRaise as pr:
-                for h in s.handlers:
-                    if h.type is None:
-                        match = True
-                    else:
-                        ht = self.ev(h.type, env, fi, depth)
-                        try:
-                            match = isinstance(pr.exc, ht)
-                        except TypeError:
-                            raise _Unsupported('except clause')
-                    if match:
-                        if h.name:
-                            env[h.name] = pr.exc
-                        return self.block(h.body, env, fi, depth)
-                raise
-            if sig is not None:
-                return sig
-            return self.block(s.orelse, env, fi, depth)
-        if isinstance(s, ast.Assert):
-            if not ev(s.test):
-                raise _PyRaise(AssertionError())
-            return None
-        raise _Unsupported('statement %s' % type(s).__name__)
-
-    # -- expressions -----------------------------------------------------------------------------------------
-    def op(self, f, *a):
-        try:
-            return f(*a)
-        except _Unsupported:
-            raise
-        except _PyRaise:
-            raise
-        except Exception as e:
-            raise _PyRaise(e)
-
-    def class_const(self, ci, attr, depth):
-        dc, v = self.repo.class_attr(ci, attr)
-        if dc is None:
-            raise _Unsupported('attribute %s' % attr)
-        if isinstance(v, (ast.FunctionDef, ast.AsyncFunctionDef)):
-            return ('<function>', dc.methods[attr])
-        if v is None:
-            raise _Unsupported('attribute %s' % attr)
-        return self.ev(v, {}, None, depth, mod=dc.mod)
-
-    def ev(self, e, env, fi, depth, mod=None):
-        self.budget -= 1
-        if self.budget < 0:
-            raise _Unsupported('evaluation budget exhausted')
-        mod = mod or (fi.mod if fi is not None else None)
-        ev = lambda x: self.ev(x, env, fi, depth, mod)
-        if isinstance(e, ast.Constant):
-            return e.value
-        if isinstance(e, ast.Name):
-            if e.id in env:
-                return env[e.id]
-            kind, m, obj = self.repo.resolve(mod, e.id)
-            if kind == 'func':
-                return ('<function>', obj)
-            if kind == 'class':
-                return ('<class>', obj)
-            if kind == 'value':
-                vals = [v for v in obj if v is not None]
-                if len(vals) == 1 and len(obj) == 1 and not isinstance(vals[0], (ast.FunctionDef, ast.ClassDef)):
-                    return self.ev(vals[0], {}, None, depth, mod=m)
-                raise _Unsupported('module-level name %s' % e.id)
-            if kind == 'unknown' and e.id in _PURE_BUILTINS:
-                return _PURE_BUILTINS[e.id]
-            raise _Unsupported('name %s' % e.id)
-        if isinstance(e, ast.Tuple):
-            return tuple(ev(x) for x in e.elts)
-        if isinstance(e, ast.List):
-            return [ev(x) for x in e.elts]
-        if isinstance(e, ast.Set):
-            return self.op(lambda: set(ev(x) for x in e.elts))
-        if isinstance(e, ast.Dict):
-            if any(k is None for k in e.keys):
-                raise _Unsupported('dict unpacking')
-            return self.op(lambda: dict((ev(k), ev(v)) for k, v in zip(e.keys, e.values)))
-        if isinstance(e, ast.Subscript):
-            v = ev(e.value)
-            if not isinstance(v, _PURE_TYPES):
-                raise _Unsupported('subscript of %s' % type(v).__name__)
-            if isinstance(e.slice, ast.Slice):
-                sl = slice(*[ev(x) if x is not None else None for x in (e.slice.lower, e.slice.upper, e.slice.step)])
-                return self.op(lambda: v[sl])
-            i = ev(e.slice)
-            return self.op(lambda: v[i])
-        if isinstance(e, ast.Compare):
-            left = ev(e.left)
-            for o, c in zip(e.ops, e.comparators):
-                right = ev(c)
-                if not self.op(_CMP[type(o)], left, right):
-                    return False
-                left = right
-            return True
-        if isinstance(e, ast.BoolOp):
-            v = None
-            for x in e.values:
-                v = ev(x)
-                if isinstance(e.op, ast.And) and not v:
-                    return v
-                if isinstance(e.op, ast.Or) and v:
-                    return v
-            return v
-        if isinstance(e, ast.UnaryOp):
-            v = ev(e.operand)
-            if isinstance(e.op, ast.Not):
-                return not v
-            if isinstance(e.op, ast.USub):
-                return self.op(lambda: -v)
-            if isinstance(e.op, ast.UAdd):
-                return self.op(lambda: +v)
-            return self.op(lambda: ~v)
-        if isinstance(e, ast.BinOp):
-            if type(e.op) not in _BIN:
-                raise _Unsupported('operator')
-            return self.op(_BIN[type(e.op)], ev(e.left), ev(e.right))
-        if isinstance(e, ast.IfExp):
-            return ev(e.body) if ev(e.test) else ev(e.orelse)
-        if isinstance(e, ast.NamedExpr):
-            v = ev(e.value)
-            env[e.target.id] = v
-            return v
-        if isinstance(e, (ast.ListComp, ast.SetComp, ast.GeneratorExp, ast.DictComp)):
-            out = []
-            inner = dict(env)
-
-            def gen(i):
-                if i == len(e.generators):
-                    if isinstance(e, ast.DictComp):
-                        out.append((self.ev(e.key, inner, fi, depth, mod), self.ev(e.value, inner, fi, depth, mod)))
-                    else:
-                        out.append(self.ev(e.elt, inner, fi, depth, mod))
-                    return
-                g = e.generators[i]
-                if g.is_async:
-                    raise _Unsupported('async comprehension')
-                it = self.ev(g.iter, inner, fi, depth, mod)
-                for v in self.op(lambda: list(it)):
-                    self.assign(g.target, v, inner, fi, depth)
-                    if all(self.ev(c, inner, fi, depth, mod) for c in g.ifs):
-                        gen(i + 1)
-            gen(0)
-            if isinstance(e, ast.SetComp):
-                return self.op(lambda: set(out))
-            if isinstance(e, ast.DictComp):
-                return self.op(lambda: dict(out))
-            return out
-        if isinstance(e, ast.Attribute):
-            v = ev(e.value)
-            if isinstance(v, tuple) and len(v) == 2 and v[0] in ('<receiver>', '<class>'):
-                return self.class_const(v[1], e.attr, depth)
-            raise _Unsupported('attribute %s' % e.attr)
-        if isinstance(e, ast.Call):
-            if any(isinstance(a, ast.Starred) for a in e.args) or any(k.arg is None for k in e.keywords):
-                raise _Unsupported('star arguments')
-            f = e.func
-            if isinstance(f, ast.Attribute):
-                recv = ev(f.value)
-                if isinstance(recv, tuple) and len(recv) == 2 and recv[0] in ('<receiver>', '<class>'):
-                    target = self.class_const(recv[1], f.attr, depth)
-                    if not (isinstance(target, tuple) and target[0] == '<function>'):
-                        raise _Unsupported('call of attribute %s' % f.attr)
-                    callee = target[1]
-                    args = [ev(a) for a in e.args]
-                    if e.keywords:
-                        raise _Unsupported('keyword call of a tree function')
-                    static = any(isinstance(d, ast.Name) and d.id == 'staticmethod' for d in callee.node.decorator_list)
-                    if not static:
-                        args = [recv] + args
-                        return self._call_fn(callee, args, depth, bound=True)
-                    return self._call_fn(callee, args, depth)
-                if not isinstance(recv, _PURE_TYPES) or f.attr.startswith('_'):
-                    raise _Unsupported('method %s of %s' % (f.attr, type(recv).__name__))
-                args = [ev(a) for a in e.args]
-                kw = dict((k.arg, ev(k.value)) for k in e.keywords)
-                r = self.op(lambda: getattr(recv, f.attr)(*args, **kw))
-                if isinstance(r, (type({}.keys()), type({}.values()), type({}.items()))):
-                    r = list(r)
-                return r
-            fn = ev(f)
-            args = [ev(a) for a in e.args]
-            if isinstance(fn, tuple) and len(fn) == 2 and fn[0] == '<function>':
-                if e.keywords:
-                    raise _Unsupported('keyword call of a tree function')
-                return self._call_fn(fn[1], args, depth)
-            if any(fn is b for b in _PURE_BUILTINS.values()):
-                kw = dict((k.arg, ev(k.value)) for k in e.keywords)
-                r = self.op(lambda: fn(*args, **kw))
-                if isinstance(r, (type(iter(())), type(zip()), type(enumerate(())), type(map(len, ())), type(filter(None, ())),
-                                  type(reversed(())), type(iter([])), type(iter(b'')), type(iter('')), range)):
-                    r = self.op(lambda: list(r))
-                return r
-            raise _Unsupported('call of %s' % norm(f))
-        raise _Unsupported('expression %s' % type(e).__name__)
-
-    def _call_fn(self, callee, args, depth, bound=False):
-        node = callee.node
-        if any(isinstance(n, (ast.Yield, ast.YieldFrom, ast.Await)) for n in ast.walk(node)):
-            raise _Unsupported('generator')
-        if bound:
-            # receiver already first in args: evaluate as a plain function
-            saved = callee.cls
-            a = node.args
-            params = [p.arg for p in a.posonlyargs + a.args]
-            if a.vararg or a.kwarg or a.kwonlyargs or len(args) > len(params):
-                raise _Unsupported('signature')
-            defaults = dict(zip(params[len(params) - len(a.defaults):], a.defaults)) if a.defaults else {}
-            env = dict(zip(params, args))
-            for p in params[len(args):]:
-                if p not in defaults:
-                    raise _PyRaise(TypeError('missing argument'))
-                env[p] = self.ev(defaults[p], {}, callee, depth + 1)
-            sig = self.block(node.body, env, callee, depth + 1)
-            return sig[1] if sig is not None and sig[0] == 'return' else None
-        return self.call_static(callee, args, depth + 1)
-
-    def call_static(self, fi, args, depth):
-        a = fi.node.args
-        params = [p.arg for p in a.posonlyargs + a.args]
-        if a.vararg or a.kwarg or a.kwonlyargs or len(args) > len(params):
-            raise _Unsupported('signature')
-        defaults = dict(zip(params[len(params) - len(a.defaults):], a.defaults)) if a.defaults else {}
-        env = dict(zip(params, args))
-        for p in params[len(args):]:
-            if p not in defaults:
-                raise _PyRaise(TypeError('missing argument'))
-            env[p] = self.ev(defaults[p], {}, fi, depth)
-        if depth > 6:
-            raise _Unsupported('call depth')
-        sig = self.block(fi.node.body, env, fi, depth)
-        return sig[1] if sig is not None and sig[0] == 'return' else None
-
-
-def eval_expr(repo, fi, expr, env):
-    """('value', v) | ('raise', name) | ('unsupported', why) for an expression over the given concrete locals (``self`` /
-    ``cls`` stand for the class of fi)."""
-    it = _Interp(repo)
-    env = dict(env)
-    if fi.cls is not None:
-        env.setdefault('self', ('<receiver>', fi.cls))
-        env.setdefault('cls', ('<class>', fi.cls))
-    try:
-        return ('value', it.ev(expr, env, fi, 0))
-    except _PyRaise as pr:
-        return ('raise', type(pr.exc).__name__)
-    except _Unsupported as u:
-        return ('unsupported', str(u))
-    except RecursionError:
-        return ('unsupported', 'recursion')
-
-
-def eval_pure(repo, fi, args):
-    """('value', v) | ('raise', exception class name) | ('unsupported', why) for fi(*args) (receiver supplied
-    automatically for methods / classmethods)."""
-    it = _Interp(repo)
-    try:
-        kinds = [d.id for d in fi.node.decorator_list if isinstance(d, ast.Name)]
-        if fi.cls is not None and 'staticmethod' not in kinds:
-            recv = ('<class>', fi.cls) if 'classmethod' in kinds else ('<receiver>', fi.cls)
-            return ('value', it._call_fn(fi, [recv] + list(args), 0, bound=True))
-        return ('value', it.call_static(fi, list(args), 0))
-    except _PyRaise as pr:
-        return ('raise', type(pr.exc).__name__)
-    except _Unsupported as u:
-        return ('unsupported', str(u))
-    except RecursionError:
-        return ('unsupported', 'recursion')
-
-
-# ---------------------------------------------------------------------------------------------- small helpers
 def _fold_names(repo, fi, expr):
     """Replace names of str / bytes / int constants (module level, class level through self / cls / the class) in an
     already substituted expression by the constants: ``_HTML_MARKER in payload[:self._sniff_len]``."""
@@ -1186,74 +765,6 @@ def _is_repr_of(expr, name):
     return False
 
 
-_JSON_YES = {'object': [b'{}', b'{"a": 1}', b'{"a": [1, 2]}', b'{\n "k": "v"\n}', b'{"k": "\xc3\xa9"}'],
-             'array': [b'[]', b'[1, 2]', b'[{"a": 1}]', b'[\n 1\n]', b'["\xc3\xa9"]']}
-_JSON_NO = [b'x', b'hello world', b'{', b'[', b'}', b']', b'{]', b'[}', b'}{', b'][', b'<html></html>', b'a{}', b'{}a',
-            b'plain [text] x', b'x{"a": 1}', b'<!doctype html><html>{}</html>', b'\xff\xfe']
-
-
-_TEXT_BODIES = (
-    [(v, 'application/json') for v in _JSON_YES['object'] + _JSON_YES['array']] +
-    [(b'{"a": "<html>"}', 'application/json'), (b'[' + b'1, ' * 5000 + b'1]', 'application/json'),
-     (b'<html><body>x</body></html>', 'text/html'), (b'<!doctype html>\n<html lang="en"><head></head></html>', 'text/html'),
-     (b'  <html>\xc3\xa9</html>', 'text/html'), (b'see <html> for {details}', 'text/html'),
-     (b'', 'text/plain'), (b'hello world', 'text/plain'), (b'{', 'text/plain'), (b'[1, 2', 'text/plain'), (b'x{"a": 1}', 'text/plain'),
-     (b'{"a": 1} trailing', 'text/plain'), (b'caf\xc3\xa9', 'text/plain'), (b'}{', 'text/plain')])
-
-
-def _text_by_evaluation(rep, repo, simple, rr, ctx_param, paths, label_of, path_text, term_text):
-    """R17.c for text results when the tests of the text branch are not the two sniffs as such: run every
-    representative body down the symbolic paths (free tests are evaluated on the body) and compare the label."""
-    for T in ('str', 'bytes'):
-        per_label = {}
-        for body, want in _TEXT_BODIES:
-            value = body if T == 'bytes' else body.decode('utf-8')
-            taken = []
-            for st in paths[T]:
-                ok = True
-                for key, atom, orig, pol, decided in st.trace:
-                    if decided:
-                        continue
-                    r = eval_expr(repo, rr, atom, {ctx_param: value})
-                    if r[0] == 'unsupported':
-                        raise AnalysisError('render_response: the test %s of the text branch is neither a recognised sniff nor '
-                                            'evaluable (%s)' % (short(orig, 60), r[1]))
-                    if r[0] == 'raise':
-                        taken = [(st, 'raises %s evaluating %s' % (r[1], short(orig, 50)))]
-                        ok = None
-                        break
-                    if bool(r[1]) is not pol:
-                        ok = False
-                        break
-                if ok is None:
-                    break
-                if ok:
-                    taken.append((st, None))
-            problem = None
-            if len(taken) != 1:
-                problem = 'is served by %d paths' % len(taken)
-            elif taken[0][1]:
-                problem = 'on the path [%s] %s' % (path_text(taken[0][0]), taken[0][1])
-            else:
-                st = taken[0][0]
-                mt, b = label_of(st)
-                if mt != want:
-                    problem = 'must be labelled %s, but the path [%s] %s' % (want, path_text(st), term_text(st))
-                else:
-                    rb = eval_expr(repo, rr, b, {ctx_param: value}) if b is not None else ('value', None)
-                    if rb[0] == 'unsupported':
-                        raise AnalysisError('render_response: the response body %s cannot be evaluated (%s)' % (short(b, 60), rb[1]))
-                    if rb[0] != 'value' or rb[1] not in (value, body):
-                        problem = 'gets the body %s, not the endpoint result' % short(b, 60)
-            per_label.setdefault(want, []).append((value, problem, taken[0][0] if taken else None))
-        for want, res in sorted(per_label.items()):
-            bad = [(v, pr, st) for v, pr, st in res if pr]
-            rep.check('R17.c', '%s::label %s: %s result (evaluated)' % (rr.key, want, T), not bad,
-                      'all %d representative %s bodies that must be %s are labelled so' % (len(res), T, want) if not bad else
-                      'the %s result %r %s' % (T, bad[0][0] if len(bad[0][0]) < 60 else bad[0][0][:57] + type(bad[0][0])(b'...' if T == 'bytes' else '...'), bad[0][1]),
-                      simple, bad[0][2].term[2] if bad and bad[0][2] is not None and bad[0][2].term[2] is not None else rr.node)
-
-
 def _guess_by_role(repo, mod, rr):
     """The JSON guess under another name: the one single-argument, bool-valued function of the module that
     render_response (or a private helper it calls) applies -- looked up in the source as written, since the loader
@@ -1292,8 +803,8 @@ def _guess_by_role(repo, mod, rr):
             fi = mod.functions[q]
             ps = [p for p in fi.params() if p not in ('self', 'cls')]
             if len(ps) == 1 and len(n.args) + len(n.keywords) == 1:
-                r = eval_pure(repo, fi, [b'{}'])
-                if r[0] == 'value' and isinstance(r[1], bool):
+                rets = [x for x in ast.walk(fi.node) if isinstance(x, ast.Return)]
+                if rets and all(isinstance(x.value, ast.Constant) and isinstance(x.value.value, bool) for x in rets):
                     cands.append(fi)
             if depth < 2 and defs[q].name.startswith('_'):
                 todo.append((defs[q], depth + 1))
@@ -1402,36 +913,10 @@ def run(rep):
             rep.fail('R17.b', fkey(gj, n), why, simple, n)
         if not confusions:
             rep.ok('R17.b', fkey(gj), 'no constant-false or TypeError-raising test on the bytes parameter %s' % sorted(bnames), simple, gj.node)
-        # label feasibility, decided by evaluating the (pure) function on representative bodies
-        probe = eval_pure(repo, gj, [b'{}'])
-        if probe[0] != 'unsupported':
-            def outcomes(vectors):
-                return [(v, eval_pure(repo, gj, [v])) for v in vectors]
-            unsup = [r for v, r in outcomes(_JSON_YES['object'] + _JSON_YES['array'] + _JSON_NO + [b'']) if r[0] == 'unsupported']
-            if unsup:
-                raise AnalysisError('_guess_json cannot be evaluated: %s' % unsup[0][1])
-            for kind in ('object', 'array'):
-                res = outcomes(_JSON_YES[kind])
-                bad = [(v, r) for v, r in res if not (r[0] == 'value' and r[1] is True)]
-                rep.check('R17.b', fkey(gj, 'accepts ' + kind), not bad,
-                          'every serialized JSON %s among %d representative bodies is recognised' % (kind, len(res)) if not bad else
-                          '%s(%r) %s: a serialized JSON %s is not labelled application/json'
-                          % (gj.name, bad[0][0], 'returns %r' % (bad[0][1][1],) if bad[0][1][0] == 'value' else 'raises ' + bad[0][1][1], kind),
-                          simple, gj.node)
-            res = outcomes(_JSON_NO)
-            bad = [(v, r) for v, r in res if not (r[0] == 'value' and not r[1])]
-            rep.check('R17.b', fkey(gj, 'bracket pairs'), not bad,
-                      'only bodies delimited by a matching {..} / [..] pair are guessed to be JSON (%d other bodies rejected)' % len(res)
-                      if not bad else '%s(%r) %s: text that is no JSON container must stay text/html / text/plain'
-                      % (gj.name, bad[0][0], 'returns %r' % (bad[0][1][1],) if bad[0][1][0] == 'value' else 'raises ' + bad[0][1][1]),
-                      simple, gj.node)
-            r = eval_pure(repo, gj, [b''])
-            ok = r[0] == 'value' and not r[1]
-            rep.check('R17.b', fkey(gj, 'empty'), ok, 'empty input is not JSON and raises nothing' if ok else
-                      '%s(b\'\') %s (indexing an empty value is not guarded)'
-                      % (gj.name, 'returns %r' % (r[1],) if r[0] == 'value' else 'raises ' + r[1]), simple, gj.node)
-        else:
-            _gj_structural(rep, simple, gj, bnames, probe[1])
+        # label feasibility is decided from the shape of the function (path conditions of each ``return True``);
+        # the function is never evaluated on sample bodies
+        _gj_structural(rep, simple, gj, bnames, 'shape')
+
     def g_render():
         rr, ctx_param, paths = get_rr()
         # the caller side: the sniffing tests of render_response on text results
@@ -1482,8 +967,9 @@ def run(rep):
         symbolic = bool(free_text) and all(_sniff_kind(c[1])[0] is not None for T, st, c in free_text)
         if not symbolic:
             # some test of the text branch is not one of the two sniffs as such (a guess helper dissolved into its
-            # caller, a combined test): decide the labels by evaluating the path conditions on representative bodies
-            _text_by_evaluation(rep, repo, simple, rr, ctx_param, paths, label_of, path_text, term_text)
+            # caller, a combined test): the labels cannot be decided from the shape, and the tests are never run
+            raise AnalysisError('render_response: a test of the text branch is not a recognisable JSON / HTML sniff (%s)'
+                                % '; '.join(sorted(set(short(c[2], 50) for T, st, c in free_text if _sniff_kind(c[1])[0] is None))[:3]))
         if symbolic:
             expected = {(True, True): 'application/json', (True, False): 'application/json', (False, True): 'text/html',
                         (False, False): 'text/plain'}
@@ -1875,6 +1361,9 @@ def _gj_structural(rep, simple, gj, bnames, why):
         start = [v for s, v in lits if s == 'start']
         end = [v for s, v in lits if s == 'end']
         pair = (start[0], end[0]) if len(start) == 1 and len(end) == 1 else None
+        if not lits:
+            raise AnalysisError('_guess_json: "return True" at line %s is not guarded by literal first/last byte tests the analysis '
+                                'can read (conditions: %s)' % (r.lineno, '; '.join(cond_texts(cs))))
         ok = pair in want
         if ok:
             pairs_seen.add(pair)
